@@ -432,6 +432,9 @@ def run(ctx):
         byop[sig.split(":")[0]] = byop.get(sig.split(":")[0], 0) + 1
         if i == "SKIPPED":
             continue
+        if sp.startswith("ERR"):
+            ctx.broken("spec:error", "the extracted spec failed on %s: %s" % (q[:200], sp[:200]))
+            continue
         ok, why = (_agree_cpx(sp, i) if sig.startswith("cpx:") else _agree_qradix(sp, i) if sig.startswith("qradix:number->string") else _agree(sp, i))
         if not ok:
             ctx.violation(sig, input=e, expected=sp, observed=i, why=why,
@@ -441,7 +444,7 @@ def run(ctx):
     # sexp_inexact_to_exact) run on the same inputs and must give the spec's value in canonical form
     mreq, mexp = [], []
     for (sig, e, q, key, nt), sp in zip(cases, so):
-        if sig.startswith("cpx:") and q.split()[1] in "0123":
+        if q.startswith("specc2 ") and q.split()[1] in "0123":
             x, y = key[2], key[3]
             mreq.append("g_op %s %s" % (q.split()[1], " ".join(numstr(None, v, False) for v in (x[0] + x[1] + y[0] + y[1]))))
             mexp.append(sp)
@@ -645,6 +648,22 @@ def gen_complex(ctx, rng, n):
              (1, ((1 << 70, 1), (1, 1)), ((5, 1), (0, 1))), (1, ((5, 1), (0, 1)), ((1 << 70, 1), (1, 1))), (3, (H, (3, 4)), ((0, 1), (0, 1)))]
     for idx, x, y in fixed:
         add(idx, COPS[idx][1], x, y)
+    # expt of an exact rational / exact complex base to an exact integer exponent (sexp_generic_expt: square and multiply over
+    # sexp_mul, reciprocal for a negative exponent); integer bases with negative exponents (sexp_bignum_expt + sexp_div)
+    def add_expt(x, e_):
+        lx = _clit(*x)
+        e = ("(let ((a %s)) (let ((r (expt a %d))) (if (equal? a %s) (values (real-part r) (imag-part r) r) (error \"operand-mutated\"))))" % (lx, e_, lx))
+        cases.append(("cpx:expt:%s" % _ckind(*x), e, "specc_expt %s %s" % (" ".join(zhex(v) for v in (x[0] + x[1])), zhex(e_)), ("cpxexpt", x, e_), True))
+    for x, e_ in [((H, (0, 1)), -1), ((H, (0, 1)), 0), (((-2, 3), (0, 1)), -3), (((2, 1), (0, 1)), -2), (((-3, 1), (0, 1)), -3), (((1 << 70, 1), (0, 1)), -1),
+                  (((0, 1), (1, 1)), 2), (((0, 1), (1, 1)), 3), (((1, 1), (1, 1)), -2), ((H, (3, 4)), 2), (((1 << 62, 1), (1, 1)), 3), (((0, 1), (-1, 2)), -5),
+                  ((M, (0, 1)), -1), (((-(1 << 62), 3), (0, 1)), -2), (((1, 1), (-1, 1)), 40), (((0, 1), (0, 1)), 0)]:
+        add_expt(x, e_)
+    for _ in range(max(20, n // 10)):
+        x = operand(rng.choice("fbrcc"))
+        e_ = rng.choice([-7, -3, -2, -1, 0, 1, 2, 3, 5, 8, rng.randrange(-12, 13)])
+        if x[0][0] == 0 and x[1][0] == 0 and e_ < 0:
+            e_ = -e_
+        add_expt(x, e_)
     for ka in "fbrc":
         for kb in "fbrc":
             if "c" not in (ka, kb):
